@@ -62,7 +62,7 @@ PIPES = OrderedDict([
 ])
 COMPILERS = list(SINGLE) + list(PIPES)
 # the compilers that have a Lean model (Core/Compile/*.lean); the others are covered by the end-to-end part only
-MODELLED = ["cer", "dcr", "sir", "btr", "qr"]
+MODELLED = ["cer", "dcr", "sir", "btr", "qr", "grounder"]
 
 
 def make_compiler(name):
@@ -1023,11 +1023,55 @@ def strip_suffix(name, originals):
     return name
 
 
+def ground_view(payload):
+    """the Grounder (Core/Compile/Grounder.lean): the real compiled problem with prune_actions True (the default) and False,
+    every ground action IN ORDER with its name, the action and the arguments it maps back to (lift_action_instance), its
+    preconditions in order and its effects; goals, trajectory constraints and initial values of the (pruned) compiled problem"""
+    _, comp, depth, ps = payload
+    P, _ = upp.build_problem(ps)
+    if not supports(comp, P):
+        return ["skip"]
+    views = []
+    Q = None
+    for prune in (True, False):
+        try:
+            res = Grounder(prune_actions=prune).compile(P)
+        except Exception as e:
+            return ["raised", type(e).__name__]
+        out = []
+        for a in res.problem.actions:
+            b = res.map_back_action_instance(ActionInstance(a, ()))
+            pre = [upx.enc_expr(c, sort_vars=True) for c in a.preconditions]
+            effs = [upp.enc_effect(e) for e in a.effects]
+            out.append(["ground", a.name, b.action.name, [str(x) for x in b.actual_parameters], ["pre"] + pre, ["effs"] + effs])
+        views.append(out)
+        if prune:
+            Q = res.problem
+    goals = sorted((upx.enc_expr(g, sort_vars=True) for g in Q.goals), key=sexp.dumps)
+    traj = sorted((upx.enc_expr(t, sort_vars=True) for t in Q.trajectory_constraints), key=sexp.dumps)
+    return ["grounded", ["prune"] + views[0], ["noprune"] + views[1], ["goals"] + goals, ["traj"] + traj,
+            ["init"] + init_view(Q)]
+
+
+def init_view(Q):
+    init = []
+    em = Q.environment.expression_manager
+    for f in Q.fluents:
+        doms = [list(Q.objects(p.type)) if p.type.is_user_type() else [] for p in f.signature]
+        for combo in product(*doms):
+            v = Q.initial_value(em.FluentExp(f, tuple(em.ObjectExp(o) for o in combo)))
+            init.append([f.name, [o.name for o in combo], "undef" if v is None else upx.enc_val(v)])
+    init.sort(key=sexp.dumps)
+    return init
+
+
 def variants(payload):
     """for the modelled compilers: the real compiled problem as a sorted list of action variants
     (mapped-back action | _, parameters, sorted preconditions, effects in order), its goals, its trajectory
     constraints and its fluent names -- fresh-name suffixes never appear (actions are named by their origin)"""
     _, comp, depth, ps = payload
+    if comp == "grounder":
+        return ground_view(payload)
     try:
         P, res = compile_real(payload)
     except Skip as e:
@@ -1254,6 +1298,33 @@ def cause_coinciding_values(payload):
     dropped the instance / variant"""
     ch = chain(payload[1])
     return ("grounder" in ch or "cer" in ch) and _some_step(payload, _multi_assign(lambda t: not t.is_bool_type(), False))
+
+
+def cause_static_conflict_sound(payload):
+    """D-C06f: the Grounder, and the first inapplicable step of the mapped-back plan is an instance that the SIMULATOR's own
+    grounding (GrounderHelper(prune_actions=False), plain simplifier) rejects (ground_action -> None) although everything it
+    evaluates is defined and >= 2 fired effects assign one non-Boolean ground fluent (necessarily the same value, or the
+    compiled step would conflict too): the static conflict check of _add_effect_instance saw two different value expressions
+    there, while Simplifier(env, problem) of the compiler replaced a static fluent by its initial value and saw one constant"""
+    if "grounder" not in chain(payload[1]):
+        return False
+    an = analyse(payload)
+    if not getattr(an, "c06_witness", None):
+        return False
+    steps = _witness_steps(payload, "c06")
+    if not steps:
+        return False
+    P, st, a, ps = steps[-1]                      # the first inapplicable step, with its pre-state
+    from unified_planning.engines.compilers.grounder import GrounderHelper
+    em = P.environment.expression_manager
+    try:
+        args = tuple(em.ObjectExp(o) for o in ps)
+        if GrounderHelper(P, prune_actions=False).ground_action(a, args) is not None:
+            return False
+    except Exception:
+        return False
+    fe = fired_effects(P, st, a, ps)
+    return fe is not None and _multi_assign(lambda t: not t.is_bool_type(), False)(P, fe)
 
 
 def cause_noop_step(payload):
